@@ -733,6 +733,22 @@ class SymBytes:
     def __shexlify__(self):
         return SymStr([HexNib(n) for n in self.nibs], 'b')
 
+    def __sunhexlify__(self):
+        """binascii.unhexlify(bytes): succeeds iff there is an even number of bytes and every byte is an ASCII hex character"""
+        import binascii
+        if len(self) % 2:
+            raise binascii.Error('Odd-length string')
+        out, conds = [], []
+        for i in range(len(self)):
+            hi, lo = self.nibs[2 * i], self.nibs[2 * i + 1]
+            digit = z3.And(hi == 3, z3.ULE(lo, 9))
+            letter = z3.And(z3.Or(hi == 4, hi == 6), z3.UGE(lo, 1), z3.ULE(lo, 6))
+            conds.append(z3.Or(digit, letter))
+            out.append(z3.simplify(z3.If(digit, lo, lo + 9)))
+        if not mk_bool(z3.And(*conds)) if conds else False:
+            raise binascii.Error('Non-hexadecimal digit found')
+        return SymBytes(out)
+
     def __sfrom_bytes__(self, byteorder='big'):
         if byteorder != 'big':
             raise Unsupported('little endian')
